@@ -3,6 +3,7 @@ package exporter
 import (
 	"encoding/json"
 	"errors"
+	"sort"
 	"strconv"
 	"strings"
 
@@ -94,7 +95,13 @@ func (s *OpenAPI3Exporter) GenerateOpenAPI3(app *syslwrapper.App) (*openapi3.T, 
 	for k, v := range app.Types {
 		spec.Components.Schemas[k] = s.exportType(v)
 	}
-	for _, v := range app.Endpoints {
+	endpointNames := make([]string, 0, len(app.Endpoints))
+	for name := range app.Endpoints {
+		endpointNames = append(endpointNames, name)
+	}
+	sort.Strings(endpointNames)
+	for _, name := range endpointNames {
+		v := app.Endpoints[name]
 		var method, path string
 		epPath := strings.Split(v.Path, " ")
 		if len(epPath) > 1 {
@@ -111,7 +118,13 @@ func (s *OpenAPI3Exporter) GenerateOpenAPI3(app *syslwrapper.App) (*openapi3.T, 
 		operation.Description = v.Description
 		operation.Summary = v.Summary
 		operation.Extensions = v.Extensions
-		for paramName, paramItem := range v.Params {
+		paramNames := make([]string, 0, len(v.Params))
+		for paramName := range v.Params {
+			paramNames = append(paramNames, paramName)
+		}
+		sort.Strings(paramNames)
+		for _, paramName := range paramNames {
+			paramItem := v.Params[paramName]
 			var param *openapi3.Parameter
 			var payload *openapi3.SchemaRef
 			switch paramItem.In {
@@ -139,7 +152,13 @@ func (s *OpenAPI3Exporter) GenerateOpenAPI3(app *syslwrapper.App) (*openapi3.T, 
 		}
 
 		// Map Responses
-		for _, value := range v.Response {
+		responseNames := make([]string, 0, len(v.Response))
+		for name := range v.Response {
+			responseNames = append(responseNames, name)
+		}
+		sort.Strings(responseNames)
+		for _, name := range responseNames {
+			value := v.Response[name]
 			response := openapi3.NewResponse()
 			schemaRef := s.exportType(value.Type)
 			response.WithDescription(value.Name)
@@ -202,6 +221,7 @@ func (s *OpenAPI3Exporter) exportType(t *syslwrapper.Type) *openapi3.SchemaRef {
 				required = append(required, k)
 			}
 		}
+		sort.Strings(required)
 		value.Required = required
 	case "ref":
 		ref = SyslRefToJSONSchema(t.Reference)
@@ -216,8 +236,13 @@ type validInputs struct {
 
 func convertEnum(syslEnum map[int64]string) validInputs {
 	enums := validInputs{}
-	for _, str := range syslEnum {
-		enums.Data = append(enums.Data, str)
+	values := make([]int64, 0, len(syslEnum))
+	for v := range syslEnum {
+		values = append(values, v)
+	}
+	sort.Slice(values, func(i, j int) bool { return values[i] < values[j] })
+	for _, v := range values {
+		enums.Data = append(enums.Data, syslEnum[v])
 	}
 	return enums
 }
